@@ -417,6 +417,66 @@ pub async fn observe(c: &Collection, dict: &mut HashMap<Vec<u8>, String>, probe_
     o
 }
 
+
+// ------------------------------------------------------------------------------------------
+// range queries of the `q` lines (same grammar as the Lean driver, evaluated independently)
+// ------------------------------------------------------------------------------------------
+
+#[derive(Clone, Debug)]
+pub enum Rq { Eq(i64), Gt(i64), Ge(i64), Lt(i64), Le(i64), Bw(i64, i64), In(Vec<i64>), Or(Vec<Rq>), And(Vec<Rq>), Not(Box<Rq>) }
+
+impl Rq {
+    fn leaf(t: &str) -> Option<Rq> {
+        let p: Vec<&str> = t.split(':').collect();
+        let n = |s: &str| s.parse::<i64>().ok();
+        Some(match p.as_slice() {
+            ["eq", a] => Rq::Eq(n(a)?), ["gt", a] => Rq::Gt(n(a)?), ["ge", a] => Rq::Ge(n(a)?),
+            ["lt", a] => Rq::Lt(n(a)?), ["le", a] => Rq::Le(n(a)?),
+            ["bw", a, b] => Rq::Bw(n(a)?, n(b)?),
+            ["in", ks] => Rq::In(parse_csv::<i64>(ks)?),
+            _ => return None,
+        })
+    }
+    pub fn parse(t: &str) -> Option<Rq> {
+        let inner = |pre: &str| t.strip_prefix(pre).and_then(|r| r.strip_suffix(')'));
+        if let Some(b) = inner("or(") { return b.split('|').map(Rq::leaf).collect::<Option<Vec<_>>>().map(Rq::Or); }
+        if let Some(b) = inner("and(") { return b.split('|').map(Rq::leaf).collect::<Option<Vec<_>>>().map(Rq::And); }
+        if let Some(b) = inner("not(") { return Rq::leaf(b).map(|q| Rq::Not(Box::new(q))); }
+        Rq::leaf(t)
+    }
+    /// what the documentation of `RangeQuery` says a key must satisfy
+    pub fn accepts(&self, k: i64) -> bool {
+        match self {
+            Rq::Eq(a) => k == *a, Rq::Gt(a) => k > *a, Rq::Ge(a) => k >= *a, Rq::Lt(a) => k < *a, Rq::Le(a) => k <= *a,
+            Rq::Bw(a, b) => *a <= k && k <= *b,
+            Rq::In(ks) => ks.contains(&k),
+            Rq::Or(qs) => qs.iter().any(|q| q.accepts(k)),
+            Rq::And(qs) => !qs.is_empty() && qs.iter().all(|q| q.accepts(k)),
+            Rq::Not(q) => !q.accepts(k),
+        }
+    }
+    pub fn to_real(&self, ty: Option<Ty>) -> RangeQuery<Fv> {
+        let v = |k: &i64| to_fv(ty, &Val::Int(*k));
+        match self {
+            Rq::Eq(a) => RangeQuery::Eq(v(a)), Rq::Gt(a) => RangeQuery::Gt(v(a)), Rq::Ge(a) => RangeQuery::Ge(v(a)),
+            Rq::Lt(a) => RangeQuery::Lt(v(a)), Rq::Le(a) => RangeQuery::Le(v(a)),
+            Rq::Bw(a, b) => RangeQuery::Between(v(a), v(b)),
+            Rq::In(ks) => RangeQuery::Include(ks.iter().map(v).collect()),
+            Rq::Or(qs) => RangeQuery::Or(qs.iter().map(|q| Box::new(q.to_real(ty))).collect()),
+            Rq::And(qs) => RangeQuery::And(qs.iter().map(|q| Box::new(q.to_real(ty))).collect()),
+            Rq::Not(q) => RangeQuery::Not(Box::new(q.to_real(ty))),
+        }
+    }
+    pub fn shape(&self) -> &'static str {
+        match self { Rq::Eq(_) => "eq", Rq::Gt(_) => "gt", Rq::Ge(_) => "ge", Rq::Lt(_) => "lt", Rq::Le(_) => "le", Rq::Bw(..) => "between", Rq::In(_) => "include", Rq::Or(_) => "or", Rq::And(_) => "and", Rq::Not(_) => "not" }
+    }
+}
+
+/// key type of a single-field index as the filter API expects it
+pub fn key_ty(fields: &[usize]) -> Option<Ty> {
+    match fields { [f] => field(*f).map(|s| s.ty).map(|t| if t == Ty::MapText { Ty::OptKeyText } else { t }), _ => None }
+}
+
 pub fn doc_from_line(fvs: &[(usize, Val)]) -> Option<Doc> {
     if fvs.len() != FIELDS.len() { return None; }
     let mut d = ADoc::new();
@@ -465,7 +525,7 @@ pub fn is_ix_op(line: &str) -> bool { matches!(line.split(' ').next(), Some("mkb
 pub fn is_mutation(line: &str) -> bool { matches!(line.split(' ').next(), Some("add" | "upd" | "rm")) }
 
 #[derive(Clone, Debug)]
-pub struct StepRec { pub op: String, pub out: String, pub dump: String }
+pub struct StepRec { pub op: String, pub out: String, pub dump: String, pub tag: String }
 
 pub struct CaseRun {
     pub steps: Vec<StepRec>,
@@ -502,7 +562,7 @@ pub async fn run_real(ops: &[String]) -> Result<CaseRun, String> {
                     for (n, g) in group.iter().enumerate() {
                         let out = if n == 0 { "ok".to_string() } else { exec_ix(c, &g.split(' ').collect::<Vec<_>>()).await };
                         let obs = observe(c, &mut dict, probe).await;
-                        recs.push((StepRec { op: g.clone(), out, dump: obs.dump.clone() }, obs));
+                        recs.push((StepRec { op: g.clone(), out, dump: obs.dump.clone(), tag: String::new() }, obs));
                     }
                     Ok(())
                 };
@@ -568,16 +628,32 @@ pub async fn run_real(ops: &[String]) -> Result<CaseRun, String> {
                 let id: u64 = id.parse().map_err(|_| "bad rm")?;
                 match c.remove(id).await { Ok(Some(_)) => "removed 1".into(), Ok(None) => "absent".into(), Err(e) => err_name(&e) }
             }
+            ["q", rank, rq] => {
+                let q = Rq::parse(rq).ok_or("bad q")?;
+                let (name, fields): (&str, &[usize]) = bt_by_rank(rank.parse().unwrap_or(99)).unwrap_or(("zzz", &[]));
+                match c.query_all_ids(Filter::Field((name.to_string(), q.to_real(key_ty(fields))))).await {
+                    Ok(ids) => format!("ids {}", csv(&ids)),
+                    Err(e) => err_name(&e),
+                }
+            }
             _ => return Err(format!("bad op: {line}")),
         };
         let obs = observe(c, &mut dict, max_seen + 1).await;
+        if let ["q", rank, rq] = toks.as_slice() && let Some(ids) = out.strip_prefix("ids ") && let Some((name, fields)) = bt_by_rank(rank.parse().unwrap_or(99)) && fields.len() == 1 {
+            // oracle: the live documents with a stored key the query accepts, recomputed from the fetched documents
+            let q = Rq::parse(rq).ok_or("bad q")?;
+            let want: Vec<u64> = obs.docs.iter().filter(|(_, d)| keys_of(d, fields).iter().any(|k| k.parse::<i64>().is_ok_and(|n| q.accepts(n)))).map(|(id, _)| *id).collect();
+            if csv(&want) != ids {
+                run.complaints.push((i, format!("filter:{}:{name}", q.shape()), format!("range filter {rq} on index {name} is not the set of live documents with a matching stored value"), csv(&want), ids.to_string()));
+            }
+        }
         if let Some(b) = &before && out.starts_with("err:") && b.dump != obs.dump {
             let shape = toks[0];
             run.complaints.push((i, format!("rejected:{shape}:{out}:left-a-trace"), format!("a rejected {shape} ({out}) changed what the collection shows"), b.dump.clone(), obs.dump.clone()));
         }
         if c.is_poisoned() { run.complaints.push((i, "poisoned".into(), "the handle poisoned itself on a storage backend that never fails".into(), "healthy handle".into(), "poisoned".into())); }
         for (k, w, e, o) in obs.complaints.clone() { run.complaints.push((i, k, w, e, o)); }
-        run.steps.push(StepRec { op: line.clone(), out, dump: obs.dump.clone() });
+        run.steps.push(StepRec { op: line.clone(), out, dump: obs.dump.clone(), tag: String::new() });
         last = Some(obs);
         i += 1;
     }
@@ -591,7 +667,9 @@ pub fn run_model(m: &mut ModelProc, ops: &[String]) -> Vec<StepRec> {
     for op in ops {
         let o = m.ask(op);
         let d = m.ask("dump");
-        out.push(StepRec { op: op.clone(), out: o, dump: d });
+        // the model's branch tag travels after ` #` and is not part of the compared answer
+        let (o, tag) = match o.split_once(" #") { Some((a, b)) => (a.to_string(), b.to_string()), None => (o, String::new()) };
+        out.push(StepRec { op: op.clone(), out: o, dump: d, tag });
     }
     out
 }
@@ -628,6 +706,33 @@ fn wrong_val(r: &mut Rng, f: &FieldSpec) -> Val {
     }
 }
 
+fn gen_rq(r: &mut Rng, lo: i64, hi: i64) -> String {
+    let k = |r: &mut Rng| r.range(lo, hi);
+    let leaf = |r: &mut Rng| -> String {
+        match r.below(8) {
+            0 => format!("eq:{}", k(r)), 1 => format!("gt:{}", k(r)), 2 => format!("ge:{}", k(r)), 3 => format!("lt:{}", k(r)), 4 => format!("le:{}", k(r)),
+            5 => { let (a, b) = (k(r), k(r)); if r.chance(1, 6) { format!("bw:{}:{}", a.max(b), a.min(b)) } else { format!("bw:{}:{}", a.min(b), a.max(b)) } }
+            _ => { let n = r.usize(4); format!("in:{}", csv(&(0..n).map(|_| k(r)).collect::<Vec<_>>())) }
+        }
+    };
+    match r.below(10) {
+        0 | 1 => format!("or({}|{})", leaf(r), leaf(r)),
+        2 | 3 => format!("and({}|{})", leaf(r), leaf(r)),
+        4 => format!("not({})", leaf(r)),
+        5 => format!("and({}|{}|{})", leaf(r), leaf(r), leaf(r)),
+        _ => leaf(r),
+    }
+}
+
+/// a filter over one single-field index (rarely over an index name that does not exist)
+fn gen_q(r: &mut Rng) -> String {
+    if r.chance(1, 25) { return format!("q 30 {}", gen_rq(r, 0, 3)); }
+    let singles: Vec<&(&str, &[usize])> = BT.iter().filter(|b| b.1.len() == 1).collect();
+    let (name, fs) = **r.pick(&singles);
+    let (lo, hi) = if fs[0] == 5 { (-3, 3) } else { (0, 9) };
+    format!("q {} {}", bt_rank(name), gen_rq(r, lo, hi))
+}
+
 fn gen_ix_op(r: &mut Rng) -> String {
     match r.below(20) {
         0..=8 => { let (name, fs) = BT[r.usize(BT.len())]; format!("mkbt {} {}", bt_rank(name), csv(fs)) }
@@ -659,7 +764,7 @@ pub fn gen_case(r: &mut Rng, g: &GenCfg) -> Vec<String> {
     for _ in 0..g.n_ops {
         let id = if !maybe.is_empty() && r.chance(4, 5) { *r.pick(&maybe) } else { 1 + r.below(next_id.max(1)) };
         match r.below(100) {
-            0..=41 => {
+            0..=39 => {
                 let mut fvs: Vec<(usize, Val)> = FIELDS.iter().map(|f| (f.num, gen_val(r, f, g))).collect();
                 let mut allocates = true;
                 if r.below(100) < g.malformed {
@@ -672,9 +777,10 @@ pub fn gen_case(r: &mut Rng, g: &GenCfg) -> Vec<String> {
                 ops.push(format!("add {}", join(fvs.iter().map(|(f, v)| format!("{f}={}", v.show())), " ")));
                 if allocates { maybe.push(next_id); next_id += 1; }
             }
-            42..=74 => {
+            40..=70 => {
                 let n = 1 + r.usize(3);
-                let mut fs: Vec<usize> = (0..FIELDS.len()).collect();
+                // one update in four aims at the fields that carry unique / multi-field indexes
+                let mut fs: Vec<usize> = if r.chance(1, 4) { (0..6).collect() } else { (0..FIELDS.len()).collect() };
                 r.shuffle(&mut fs);
                 let mut fvs: Vec<(usize, Val)> = fs[..n].iter().map(|k| (FIELDS[*k].num, gen_val(r, &FIELDS[*k], g))).collect();
                 if r.below(100) < g.malformed {
@@ -686,10 +792,11 @@ pub fn gen_case(r: &mut Rng, g: &GenCfg) -> Vec<String> {
                 }
                 ops.push(format!("upd {id} {}", join(fvs.iter().map(|(f, v)| format!("{f}={}", v.show())), " ")).trim_end().to_string());
             }
-            75..=84 => { ops.push(format!("rm {id}")); maybe.retain(|x| *x != id); }
-            85..=87 => ops.push(format!("rm {}", 1 + r.below(next_id + 1))),
-            88..=90 => ops.push("reopen".into()),
-            91 | 92 => ops.push("flush".into()),
+            71..=79 => { ops.push(format!("rm {id}")); maybe.retain(|x| *x != id); }
+            80..=82 => ops.push(format!("rm {}", 1 + r.below(next_id + 1))),
+            83..=85 => ops.push("reopen".into()),
+            86 | 87 => ops.push("flush".into()),
+            88..=94 => ops.push(gen_q(r)),
             _ => { ops.push("reopen".into()); for _ in 0..1 + r.usize(2) { ops.push(gen_ix_op(r)); } }
         }
     }
@@ -705,13 +812,15 @@ pub struct Verdict {
     /// first step at which model and implementation differ: (step, what, model, impl)
     pub disagreement: Option<(usize, String, String, String)>,
     pub steps: Vec<StepRec>,
+    /// branch tags of the model run (one per step that changes state)
+    pub tags: Vec<String>,
     pub error: Option<String>,
     pub panicked: bool,
 }
 
 pub fn check_once(rt: &tokio::runtime::Runtime, ops: &[String], model: &mut Option<ModelProc>) -> Verdict {
     let r = std::panic::catch_unwind(std::panic::AssertUnwindSafe(|| rt.block_on(run_real(ops))));
-    let mut v = Verdict { complaints: vec![], disagreement: None, steps: vec![], error: None, panicked: false };
+    let mut v = Verdict { complaints: vec![], disagreement: None, steps: vec![], tags: vec![], error: None, panicked: false };
     let run = match r {
         Ok(Ok(run)) => run,
         Ok(Err(e)) => { v.error = Some(e); return v; }
@@ -720,6 +829,7 @@ pub fn check_once(rt: &tokio::runtime::Runtime, ops: &[String], model: &mut Opti
     v.complaints = run.complaints;
     if let Some(m) = model.as_mut() {
         let ms = run_model(m, ops);
+        v.tags = ms.iter().filter(|s| !s.tag.is_empty()).map(|s| s.tag.clone()).collect();
         for (k, (a, b)) in ms.iter().zip(run.steps.iter()).enumerate() {
             if a.out != b.out { v.disagreement = Some((k, format!("outcome of `{}`", a.op), a.out.clone(), b.out.clone())); break; }
             if a.dump != b.dump { v.disagreement = Some((k, format!("observable state after `{}`", a.op), a.dump.clone(), b.dump.clone())); break; }
@@ -742,6 +852,13 @@ pub fn check_case(rt: &tokio::runtime::Runtime, name: &str, ops: &[String], mode
         let kind = s.op.split(' ').next().unwrap_or("");
         rep.hit(&format!("op:{kind}"));
         rep.hit(&format!("out:{kind}:{}", s.out.split(' ').next().unwrap_or("")));
+    }
+    for t in &v.tags { rep.hit(&format!("branch:{t}")); }
+    for s in &v.steps {
+        if let Some(rest) = s.op.strip_prefix("q ") && let Some(q) = rest.split(' ').nth(1).and_then(Rq::parse) {
+            let n = s.out.strip_prefix("ids ").map(|x| if x == "-" { 0 } else { x.split(',').count() });
+            rep.hit(&format!("query:{}:{}", q.shape(), match n { None => "error", Some(0) => "empty", Some(_) => "hits" }));
+        }
     }
     if model.is_some() { rep.model_compared += 2 * v.steps.len() as u64; }
     let accepted = v.steps.iter().any(|s| s.out.starts_with("id "));
